@@ -241,6 +241,9 @@ func (c *Client) Connect() error {
 	if c.PostConnectHook != nil {
 		err = c.PostConnectHook()
 		if err != nil {
+			// As in Resume: the attempt is reported as failed, so the session it had established is closed
+			// instead of being left up with neither keepalive nor receiver.
+			c.closeUnattendedSession()
 			return err
 		}
 	}
